@@ -148,6 +148,16 @@ func main() {
 	}
 	wg.Wait()
 	pd.floors(run)
+	if p := os.Getenv("VERIF_MERGE_DUMP"); p != "" && *fProp == "C03" {
+		// the end-to-end part of C03's resume clause (system rig, -prop C03S) ran first and dumped its Run
+		if err := run.MergePrefixed(p, "e2e_"); err != nil {
+			run.Inconclusive("the end-to-end part (system rig) left no result: " + err.Error())
+		}
+		run.Floor("e2e_streams_judged", run.Pick(5, 40))
+		run.Floor("e2e_rows_judged_after_resume", run.Pick(20, 200))
+		run.Rule += " PLUS the end-to-end part of the resume clause (counters e2e_*): whole service in a killable child, all downstream shards on one channel, C05's inputs with SIGKILL (reply held / after a checkpoint Put), pause + resume and skewed variants (one stream read slowly, stamped on a clock the others pushed ahead); per stream every row message accepted downstream after the restart / resume must lie strictly above the closing tick of the pack the stream was resumed from (the last accepted pack with rows whose checkpoint Put had been performed)."
+		run.Assumptions = append(run.Assumptions, "end-to-end part: a stream whose checkpoint Put was in flight when the process died, or whose checkpoint stands for a tick-only pack, is not judged")
+	}
 	if p := os.Getenv("VERIF_MERGE_DUMP"); p != "" && *fProp == "C04" {
 		// the end-to-end part of C04 (system rig: real CollectionReader, pause / resume / restart, real writer over
 		// gRPC) ran first and dumped its Run; both parts decide the same property and share one evidence file
